@@ -385,6 +385,7 @@ func init() {
 			{Name: "filldrain", QShards: 2, TShards: 6, Run: c15FillDrain},
 			{Name: "families", QShards: 2, TShards: 6, Run: c15Families},
 			{Name: "nested", StallSec: 60, Run: c15Nested},
+			{Name: "opcounts", QShards: 3, TShards: 6, Run: c15OpCounts},
 		},
 	})
 }
@@ -1049,5 +1050,96 @@ func c15Nested(c *Ctx) {
 			k.Count("foreach_observations", int64(2*len(outer)+2))
 			k.Nontrivial([]byte(ma.Canon()), []byte(mb.Canon()))
 		})
+	}
+}
+
+// c15OpCounts: between two operations on one long key, EXACTLY 2^8 or 2^16 (one
+// less, one more) operations of one kind on other keys — successful deletes,
+// adds, deletes that find nothing, deletes by prefix — and then the key is
+// touched again (added again, extended, deleted, looked up). A remembered
+// position that is invalidated by a generation counter kept in 8 or 16 bits is
+// valid again after exactly that many invalidations. The model is compared at
+// the end and at the touch.
+func c15OpCounts(c *Ctx) {
+	counts := []int{255, 256, 257, 65535, 65536, 65537}
+	kinds := []string{"successful deletes", "adds", "deletes that find nothing", "successful deletes, the long key among them"}
+	idx := int64(0)
+	for _, p := range counts {
+		for kt := 0; kt < 4*len(kinds); kt++ {
+			ki, ti := kt/4, kt%4
+			kind := kinds[ki]
+			c.Case(idx, func(k *K) {
+				r := k.Rand()
+				long := "contig/" + string(randSeq(r, []byte("ACGT"), 20+r.IntN(30)))
+				t, m := trie.New(), newSetModel()
+				do := func(o trieOp) bool { return applyOp(k, t, m, o, o.String()) }
+				// The bulk keys are prefix-free by construction (fixed-length "read/…" names, the long "contig/…" key,
+				// "absent/…" names that are never added), so the model is updated directly (the general model scans
+				// all members per operation); the results of Delete are still compared.
+				bulk := func(del bool, key string) bool {
+					if del {
+						got, want := t.Delete([]byte(key)), m.m[key]
+						delete(m.m, key)
+						if got != want {
+							k.Failf("delete-result", "Delete(%q) returned %v, model says %v", key, got, want)
+							return false
+						}
+						return true
+					}
+					t.Add([]byte(key))
+					m.m[key] = true
+					return true
+				}
+				k.Input("operations_in_between", fmt.Sprintf("%d %s", p, kind))
+				short := func(j int) string { return fmt.Sprintf("read/%07d", j) }
+				// preparation (not counted): the keys the counted operations need
+				if ki == 0 || ki == 3 {
+					for j := 0; j < p; j++ {
+						if !bulk(false, short(j)) {
+							return
+						}
+					}
+				}
+				if !do(trieOp{false, long}) { // the operation that is remembered
+					return
+				}
+				for j := 0; j < p; j++ { // exactly p operations of the kind
+					ok := true
+					switch ki {
+					case 0:
+						ok = bulk(true, short(j))
+					case 1:
+						ok = bulk(false, short(j))
+					case 2:
+						ok = bulk(true, fmt.Sprintf("absent/%d", j))
+					default:
+						if j == p/2 {
+							ok = bulk(true, long)
+						} else {
+							ok = bulk(true, short(j))
+						}
+					}
+					if !ok {
+						return
+					}
+				}
+				// touch the long key again
+				touch := []trieOp{{false, long + "/1"}, {false, long}, {true, long}, {false, long[:len(long)-3]}}[ti]
+				if !do(touch) {
+					return
+				}
+				probes := []string{"", long, long + "/1", long + "/", long[:10], short(0), short(p - 1), "absent/0"}
+				if !observeTrie(k, t, m, probes, fmt.Sprintf("after %d %s and then %s", p, kind, touch)) {
+					return
+				}
+				if t2 := jsonRebuild(k, t, "after a counted history"); t2 == nil || !observeTrie(k, t2, m, probes, "JSON-rebuilt trie") {
+					return
+				}
+				k.Count("counted_histories", 1)
+				k.Count("histories", 1)
+				k.Nontrivial([]byte(fmt.Sprint("opcounts", p, kind, ti)))
+			})
+			idx++
+		}
 	}
 }
